@@ -122,6 +122,7 @@ def _case(draw):
         "incnames": incnames,
         "inplace": draw(st.sampled_from([False, False, True])),
         "sparse_last": draw(st.booleans()),
+        "inc_container": draw(st.sampled_from(["list", "list", "tuple", "set", "iter"])),
         "inst": inst,
         "glyphset": draw(st.sampled_from(["_GlyphSet", "_GlyphSet", "dict"])),   # the filter API takes any mapping of glyph names to glyphs
     }
@@ -155,7 +156,10 @@ def make_filter(case):
     cls = plain.getInterpolatableFilterClass() if case["interpolatable"] else plain
     if cls is None:
         raise Discard("no interpolatable variant")
-    return cls(**kw), plain, kw
+    # the name lists are accepted as any iterable: list, tuple, set or a one-shot iterator
+    kind = case.get("inc_container", "list")
+    kwc = {k: ({"list": list, "tuple": tuple, "set": set, "iter": iter}[kind](v) if k in ("include", "exclude") else v) for k, v in kw.items()}
+    return cls(**kwc), plain, kw
 
 
 def second_spec(case):
